@@ -1064,6 +1064,8 @@ where
     stop_marker: Sender<ChainCommand>,
     trace: Arc<Mutex<Option<T::ChainStorage>>>,
     progress: Arc<Mutex<ChainProgress>>,
+    #[cfg(nuts_rs_verif)]
+    verif_id: u64,
 }
 
 #[cfg(feature = "parallel")]
@@ -1082,12 +1084,20 @@ impl<T: TraceStorage> ChainProcess<T> {
     }
 
     fn resume(&self) -> Result<()> {
+        #[cfg(nuts_rs_verif)]
+        let vg = crate::verif::sched::guard("ctl", "send_resume", self.verif_id);
         self.stop_marker.send(ChainCommand::Resume)?;
+        #[cfg(nuts_rs_verif)]
+        vg.log(1);
         Ok(())
     }
 
     fn pause(&self) -> Result<()> {
+        #[cfg(nuts_rs_verif)]
+        let vg = crate::verif::sched::guard("ctl", "send_pause", self.verif_id);
         self.stop_marker.send(ChainCommand::Pause)?;
+        #[cfg(nuts_rs_verif)]
+        vg.log(1);
         Ok(())
     }
 
@@ -1126,6 +1136,8 @@ impl<T: TraceStorage> ChainProcess<T> {
                 let mut sampler = settings.new_chain(chain_id, logp, &mut rng);
 
                 progress.lock().expect("Poisoned mutex").started = true;
+                #[cfg(nuts_rs_verif)]
+                crate::verif::sched::point("chain", "started", chain_id, 0);
 
                 let mut initval = vec![0f64; dim];
                 // TODO maxtries
@@ -1148,7 +1160,11 @@ impl<T: TraceStorage> ChainProcess<T> {
 
                 let draws = settings.hint_num_tune() + settings.hint_num_draws();
 
+                #[cfg(nuts_rs_verif)]
+                let vg = crate::verif::sched::guard("chain", "try_recv", chain_id);
                 let mut msg = stop_marker_rx.try_recv();
+                #[cfg(nuts_rs_verif)]
+                vg.log(verif_msg_code(&msg));
                 let mut draw = 0;
                 loop {
                     if draw >= draws {
@@ -1161,14 +1177,22 @@ impl<T: TraceStorage> ChainProcess<T> {
                         }
                         Err(TryRecvError::Empty) => {}
                         Ok(ChainCommand::Pause) => {
+                            #[cfg(nuts_rs_verif)]
+                            crate::verif::sched::point("chain", "block", chain_id, draw as u64);
                             msg = stop_marker_rx.recv().map_err(|e| e.into());
+                            #[cfg(nuts_rs_verif)]
+                            crate::verif::sched::point("chain", "recv", chain_id, verif_msg_code(&msg));
                             continue;
                         }
                         Ok(ChainCommand::Resume) => {}
                     }
 
                     let now = Instant::now();
+                    #[cfg(nuts_rs_verif)]
+                    crate::verif::sched::point("chain", "before_draw", chain_id, draw as u64);
                     let (_point, mut draw_data, mut stats, info) = sampler.expanded_draw()?;
+                    #[cfg(nuts_rs_verif)]
+                    crate::verif::sched::point("chain", "drawn", chain_id, draw as u64);
 
                     let mut guard = chain_trace
                         .lock()
@@ -1176,6 +1200,8 @@ impl<T: TraceStorage> ChainProcess<T> {
 
                     let Some(trace_val) = guard.as_mut() else {
                         // The trace was removed by controller thread. We can stop sampling
+                        #[cfg(nuts_rs_verif)]
+                        crate::verif::sched::point("chain", "trace_gone", chain_id, draw as u64);
                         break;
                     };
                     progress
@@ -1191,22 +1217,34 @@ impl<T: TraceStorage> ChainProcess<T> {
                         draw_data.get_all(math.deref()),
                         &info,
                     )?;
+                    #[cfg(nuts_rs_verif)]
+                    crate::verif::sched::point("chain", "recorded", chain_id, draw as u64);
 
                     draw += 1;
                     if draw == draws {
                         break;
                     }
 
+                    #[cfg(nuts_rs_verif)]
+                    let vg = crate::verif::sched::guard("chain", "try_recv", chain_id);
                     msg = stop_marker_rx.try_recv();
+                    #[cfg(nuts_rs_verif)]
+                    vg.log(verif_msg_code(&msg));
                 }
                 Ok(())
             };
 
             let result = sample();
+            #[cfg(nuts_rs_verif)]
+            let vg = crate::verif::sched::guard("chain", "result", chain_id);
+            #[cfg(nuts_rs_verif)]
+            let verif_ok = result.is_ok() as u64;
 
             // We intentionally ignore errors here, because this means some other
             // chain already failed, and should have reported the error.
             let _ = results.send(result);
+            #[cfg(nuts_rs_verif)]
+            vg.log(verif_ok);
             drop(results);
         });
 
@@ -1214,6 +1252,8 @@ impl<T: TraceStorage> ChainProcess<T> {
             trace: chain_trace,
             stop_marker: stop_marker_tx,
             progress,
+            #[cfg(nuts_rs_verif)]
+            verif_id: chain_id,
         })
     }
 
@@ -1368,6 +1408,8 @@ impl<F: Send + 'static> Sampler<F> {
                         // TODO return when all chains are done
                         match commands_rx.recv_timeout(timeout) {
                             Ok(SamplerCommand::Pause) => {
+                                #[cfg(nuts_rs_verif)]
+                                crate::verif::sched::point("ctl", "cmd", 0, 1);
                                 for chain in chains.iter() {
                                     // This failes if the thread is done.
                                     // We just want to ignore those threads.
@@ -1384,6 +1426,8 @@ impl<F: Send + 'static> Sampler<F> {
                                 })?;
                             }
                             Ok(SamplerCommand::Continue) => {
+                                #[cfg(nuts_rs_verif)]
+                                crate::verif::sched::point("ctl", "cmd", 0, 2);
                                 for chain in chains.iter() {
                                     // This failes if the thread is done.
                                     // We just want to ignore those threads.
@@ -1398,6 +1442,8 @@ impl<F: Send + 'static> Sampler<F> {
                                 })?;
                             }
                             Ok(SamplerCommand::Progress) => {
+                                #[cfg(nuts_rs_verif)]
+                                crate::verif::sched::point("ctl", "cmd", 0, 3);
                                 let progress =
                                     chains.iter().map(|chain| chain.progress()).collect_vec();
                                 responses_tx.send(SamplerResponse::Progress(progress.into())).map_err(|e| {
@@ -1407,6 +1453,8 @@ impl<F: Send + 'static> Sampler<F> {
                                 })?;
                             }
                             Ok(SamplerCommand::Inspect) => {
+                                #[cfg(nuts_rs_verif)]
+                                crate::verif::sched::point("ctl", "cmd", 0, 5);
                                 let traces = chains
                                     .iter()
                                     .filter_map(|chain| {
@@ -1426,6 +1474,8 @@ impl<F: Send + 'static> Sampler<F> {
                                 })?;
                             }
                             Ok(SamplerCommand::Flush) => {
+                                #[cfg(nuts_rs_verif)]
+                                crate::verif::sched::point("ctl", "cmd", 0, 4);
                                 for chain in chains.iter() {
                                     chain.flush()?;
                                 }
@@ -1437,6 +1487,8 @@ impl<F: Send + 'static> Sampler<F> {
                             }
                             Err(RecvTimeoutError::Timeout) => {}
                             Err(RecvTimeoutError::Disconnected) => {
+                                #[cfg(nuts_rs_verif)]
+                                crate::verif::sched::point("ctl", "disconnected", 0, 0);
                                 if let Some(ProgressCallback { callback, .. }) = &mut callback {
                                     let progress =
                                         chains.iter().map(|chain| chain.progress()).collect_vec();
@@ -1453,8 +1505,12 @@ impl<F: Send + 'static> Sampler<F> {
                     }
                 };
                 let result: Result<()> = main_loop();
+                #[cfg(nuts_rs_verif)]
+                crate::verif::sched::point("ctl", "finalize_start", 0, result.is_ok() as u64);
                 // Run finalization even if something failed
                 let output = ChainProcess::finalize_many(trace, chains)?;
+                #[cfg(nuts_rs_verif)]
+                crate::verif::sched::point("ctl", "finalize_done", 0, 0);
 
                 result?;
                 Ok(output)
@@ -1784,5 +1840,15 @@ mod tests {
         assert_eq!(vals.len(), 10);
         assert_eq!(stats.chain, 1);
         assert_eq!(stats.draw, 100);
+    }
+}
+
+#[cfg(all(nuts_rs_verif, feature = "parallel"))]
+fn verif_msg_code(msg: &std::result::Result<ChainCommand, TryRecvError>) -> u64 {
+    match msg {
+        Err(TryRecvError::Empty) => 0,
+        Ok(ChainCommand::Pause) => 1,
+        Ok(ChainCommand::Resume) => 2,
+        Err(TryRecvError::Disconnected) => 3,
     }
 }
